@@ -143,6 +143,24 @@ pub fn rclaims(r: &mut StdRng, o: &TreeOpts, now: u64) -> Value {
     if r.gen_bool(0.05) {
         m.insert("jti".into(), [json!("id-1"), json!(1), Value::Null][r.gen_range(0..3)].clone());
     }
+    if o.depth >= 2 && r.gen_bool(0.015) {
+        // WIDE claim sets: hundreds of members / elements at one level (size-dependent behaviour: counters, limits, quadratic scans)
+        let n = [130usize, 200, 300, 520][r.gen_range(0..4)];
+        match r.gen_range(0..3) {
+            0 => {
+                for i in 0..n {
+                    m.insert(format!("w{i:03}"), rleaf(r, o));
+                }
+            }
+            1 => {
+                m.insert("wide".into(), Value::Array((0..n).map(|i| if i % 7 == 3 { json!({"i": i}) } else { rleaf(r, o) }).collect()));
+            }
+            _ => {
+                let inner: Map<String, Value> = (0..n / 2).map(|i| (format!("m{i}"), json!([i, rstr(r, o)]))).collect();
+                m.insert("wide".into(), Value::Object(inner));
+            }
+        }
+    }
     m.insert("exp".into(), json!(now + r.gen_range(100_000u64..100_000_000)));
     if r.gen_bool(0.2) {
         m.insert("nbf".into(), json!(now - r.gen_range(1000..1_000_000)));
